@@ -826,7 +826,22 @@ func c15Muts() []c15Mut {
 	hdr := func(k string, v interface{}) func(*c15Scn) { return func(s *c15Scn) { upd(s.hdr, k, v) } }
 	claim := func(k string, v interface{}) func(*c15Scn) { return func(s *c15Scn) { upd(s.claims, k, v) } }
 	post := func(f func(s *c15Scn, p []string) string) func(*c15Scn) {
-		return func(s *c15Scn) { s.post = func(t string) string { return f(s, c15Parts(t)) } }
+		return func(s *c15Scn) {
+			s.post = func(t string) (out string) {
+				// a text-level change that does not apply to this token (another change already removed or
+				// shortened the part it edits) leaves the token as it is
+				defer func() {
+					if recover() != nil {
+						out = t
+					}
+				}()
+				p := c15Parts(t)
+				if len(p) != 3 {
+					return t
+				}
+				return f(s, p)
+			}
+		}
 	}
 	raw := func(v string) func(*c15Scn) { return func(s *c15Scn) { s.jwt = c15sp(v) } }
 	return []c15Mut{
